@@ -112,10 +112,12 @@ def _run(ck: core.Check, pool):
     from harness import lib_vpnodes as N
     from harness import lib_vpprog as P
 
+    from harness import lib_vpsources as S
+
     rng = ck.rng
     L.single_threaded_ort()
     # ---- program-level tasks first (they run in the worker processes while the rest goes on)
-    n_prog = ck.pick(60, 600)
+    n_prog = S.escalate(ck, 60, 600, 3)
     tasks = []
     for _ in range(n_prog):
         steps = P.gen_program(rng, PROGRAM_SIZE)
@@ -132,7 +134,7 @@ def _run(ck: core.Check, pool):
 
         fams = [(LG.gen_legacy_program, t) for t in sorted(LG.TEMPLATES)] + [(DT.gen_dtype_program, t) for t in DT.TEMPLATES]
         for gen, t in fams:
-            for _ in range(ck.pick(1, 8)):
+            for _ in range(S.escalate(ck, 1, 8)):
                 steps = gen(rng, t)
                 sel = rng.choice(["reference", "onnxruntime"])
                 for _ in range(ck.pick(2, 4)):
@@ -149,7 +151,7 @@ def _run(ck: core.Check, pool):
         from harness import lib_vpmixed as MX
 
         for t in sorted(MX.TEMPLATES):
-            for _ in range(ck.pick(4, 40)):
+            for _ in range(S.escalate(ck, 4, 40)):
                 tasks.append({"level": "mixed", "case": MX.gen_mixed(rng, t), "seed": rng.randrange(10**6)})
     except Exception as e:  # noqa: BLE001
         ck.broken("oracle", "C15 mixed-opset program generator", f"{type(e).__name__}: {str(e)[:200]}")
@@ -203,6 +205,9 @@ def _run(ck: core.Check, pool):
         if task["level"] == "mixed":
             pstats["mixed_opset_builds"] = pstats.get("mixed_opset_builds", 0) + 1
             pstats["mixed_adapted"] = pstats.get("mixed_adapted", 0) + r.get("stats", {}).get("adapted", 0)
+            if r.get("stats", {}).get("graph_differs"):
+                ck.broken("correspondence", "C15 the emitted nodes / initializers differ between propagation on and off",
+                          f"mixed-opset template {task['case'].get('template')}: values reach the emitted graph")
         elif task["level"] == "program":
             pstats["fault_runs"] += 1
             pstats["effective_faults"] += int(bool(r.get("effective")))
